@@ -437,6 +437,12 @@ func errorHandled(f *ssa.Function, e ssa.Value) (bool, string) {
 										return true, "tested-and-replaced-by-another-error"
 									}
 								}
+								// or a message that describes the failure is returned in its place (the caller reports it)
+								for _, res := range x.Results {
+									if isStringType(res.Type()) && nonEmptyText(res, 0) {
+										return true, "tested-and-converted-to-message"
+									}
+								}
 							}
 						}
 					}
@@ -889,7 +895,41 @@ func isZeroConst(v ssa.Value) bool {
 
 // reportsError: the call appends to an error accumulator — multierror.Append itself, or a function / closure of
 // the repository whose body does (one level, e.g. a local `report := func(node, msg) { errs = multierror.Append(…) }`).
+// nonEmptyText: the string cannot be "" (a non-empty constant, or a concatenation or format that contains one).
+func nonEmptyText(v ssa.Value, depth int) bool {
+	if depth > 6 {
+		return false
+	}
+	switch x := v.(type) {
+	case *ssa.Const:
+		return x.Value != nil && x.Value.Kind() == constant.String && constant.StringVal(x.Value) != ""
+	case *ssa.BinOp:
+		return x.Op == token.ADD && (nonEmptyText(x.X, depth+1) || nonEmptyText(x.Y, depth+1))
+	case *ssa.Phi:
+		for _, e := range x.Edges {
+			if !nonEmptyText(e, depth+1) {
+				return false
+			}
+		}
+		return len(x.Edges) > 0
+	case *ssa.Call:
+		if c := x.Common().StaticCallee(); c != nil && c.Pkg != nil && c.Pkg.Pkg.Path() == "fmt" && c.Name() == "Sprintf" && len(x.Common().Args) > 0 {
+			if f, ok := x.Common().Args[0].(*ssa.Const); ok && f.Value != nil && f.Value.Kind() == constant.String {
+				s := constant.StringVal(f.Value)
+				return strings.Trim(s, "%svdqxT+#0123456789.[]*") != ""
+			}
+		}
+	}
+	return false
+}
+
 func reportsError(call *ssa.Call, depth int) bool {
+	// append(problems, err): a plain list of errors as accumulator
+	if b, isB := call.Common().Value.(*ssa.Builtin); isB && b.Name() == "append" && len(call.Common().Args) == 2 {
+		if sl, ok := call.Common().Args[0].Type().Underlying().(*types.Slice); ok && types.Implements(sl.Elem(), errorType.Underlying().(*types.Interface)) {
+			return true
+		}
+	}
 	if c := call.Common().StaticCallee(); c != nil {
 		if c.Name() == "Append" && c.Pkg != nil && strings.Contains(c.Pkg.Pkg.Path(), "multierror") {
 			return true
